@@ -149,7 +149,8 @@ L_Lifecycle ==
     /\ \A c \in Conns : LConnRow(Lg, c)[3] # 0 =>
          \E r \in ToSet(Lg.sess) : r.sid = LConnRow(Lg, c)[2] /\ <<LConnRow(Lg, c)[3], c>> \in ToSet(r.mem)
     /\ \A r \in ToSet(Lg.sess) : \A m \in ToSet(r.mem) : m[2] \in Conns /\ LConnRow(Lg, m[2])[2] = r.sid /\ LConnRow(Lg, m[2])[3] = m[1]
-L_FrameHandlers == AfterPhase => \A r \in ToSet(Lg.sess) : r.fh = Len(r.mem)
+\* (.. and the frame ticker of a registered session runs: a session whose frames have stopped relays no update ever again)
+L_FrameHandlers == AfterPhase => \A r \in ToSet(Lg.sess) : r.fh = Len(r.mem) /\ r.ticking = 1
 L_SidSource     == AfterPhase => /\ \A r \in ToSet(Lg.sess) : r.sid \notin ToSet(Lg.free) /\ r.sid <= Lg.cur
                                  /\ \A r1, r2 \in ToSet(Lg.sess) : r1.sid = r2.sid => r1 = r2
 
